@@ -77,12 +77,20 @@ class C10(Prop):
             a, b = G.idxpool[1], G.idxpool[0]          # extents 3 and 2; a is met first although its count is larger
             Z = 0 * M[a, b]
             return ufl.conditional(ufl.lt(f[0], g[1]), Z, 3 * M[a, b])
+        if kind == "two_binders":        # two component tensors binding DIFFERENT indices over a shared body, read through the SAME index tuple
+            body = (2 * A[i, j] + f[i] * g[j])
+            rows, cols = ufl.as_tensor(body, (i,)), ufl.as_tensor(body, (j,))      # free j resp. free i
+            l = G.idxpool[2] if G.idxdim[G.idxpool[2]] == 2 else G.idxpool[0]
+            if rng.random() < 0.5:
+                return rows[0] * g[j] + cols[0] * f[i]
+            T1, T2 = ufl.as_tensor(body * h[j], (i,)), ufl.as_tensor(body * h[i], (j,))
+            return T1[0] + 3 * T2[0] if rng.random() < 0.5 else ufl.as_tensor(T1[1], (j,))[0] - ufl.as_tensor(T2[1], (i,))[1]
         if kind == "nested_ct":
             T = ufl.as_tensor(ufl.as_tensor(A[i, j] * 2, (j, i))[i, j] + A[i, j], (i, j))
             return T[j, i] * A[i, j]
         return G.expr((), (), 2)
 
-    KINDS = ["var_revisit", "var_revisit_idx", "capture", "capture_open", "shadow_fixed", "shadow_free", "zero_fi", "nested_ct", "ct_twice", "zero_fi2", "zero_fi2_open"]
+    KINDS = ["var_revisit", "var_revisit_idx", "capture", "capture_open", "shadow_fixed", "shadow_free", "zero_fi", "nested_ct", "ct_twice", "zero_fi2", "zero_fi2_open", "two_binders"]
 
     def gen_case(self, rng, k):
         G = gen.Gen(rng, gdim=2, math=(k % 3 == 0), compound=False, derivs=False, reuse=0.9, tensor_cond=(k % 5 == 0))
